@@ -8,6 +8,7 @@ EXTENDS Intervals, SequencesExt, Json
 
 CONSTANT Fams            \* subset of {"cap", "chord"}
 CONSTANT CIdxA, CIdxB    \* indices into DirSeq: centres of first / second operands
+CONSTANT CtSeed          \* seed of the off-grid offsets of family "ct" (passed through to the replay)
 CONSTANT EAK, EBK        \* radii (eighths) + 100 of first / second operands
 
 DirSeq == SetToSeq(Dirs)
@@ -20,10 +21,14 @@ Deltas == {0, 1, 2, 3, 4, 6, 8, 12}          \* expansion distances, units of pi
 VARIABLE t
 Init == t \in UNION {
             IF "cap" \in Fams THEN {<<"cap", <<c, e>>>> : c \in CA, e \in EA} ELSE {},
-            IF "chord" \in Fams THEN {<<"chord", a>> : a \in 0..32} ELSE {} }
+            IF "chord" \in Fams THEN {<<"chord", a>> : a \in 0..32} ELSE {},
+            \* "ct": chord angles whose angles add up to pi (almost all the way round), embedded
+            \* off-grid with the supplement nudged by nu ulps; nearly full caps
+            IF "ct" \in Fams THEN {<<"ct", a>> : a \in 1..31} ELSE {} }
 Next == /\ Len(t) = 2
         /\ t' \in CASE t[1] = "cap" -> {<<"cap", t[2], <<o, e>>>> : o \in CB, e \in EB}
                     [] t[1] = "chord" -> {<<"chord", t[2], b>> : b \in 0..32}
+                    [] t[1] = "ct" -> {<<"ct", t[2], <<nu, off>>>> : nu \in -3..3, off \in 1..3}
 F == t[1]
 A == t[2]
 B == t[3]
@@ -65,6 +70,12 @@ CapBinary == F = "cap" /\ Bin =>
     /\ (\E p \in Dirs : In(o, eo, p) /\ ~In(c, ec, p)) => CapContainsCap(c, ec, o, eo) # "T"
     /\ (\E p \in Dirs : Strict(c, ec, p) /\ In(o, eo, p)) => CapInteriorIntersects(c, ec, o, eo) # "F"
 
+\* the supplement is the least second operand whose sum is clamped to the straight angle
+CTLaws == F = "ct" /\ Un =>
+    /\ ChordAdd(A, ChordSupp(A)) = [k |-> "eq", e |-> 32]
+    /\ ChordAdd(A, ChordSupp(A) - 1).e < 32 \/ ChordSupp(A) - 1 = 0
+    /\ ChordSub(32, A).e = ChordSupp(A) \/ ChordSub(32, A).k = "open"
+
 ChordLaws == F = "chord" /\ Bin =>
     LET a == A b == B s == ChordAdd(a, b) d == ChordSub(a, b) IN
     /\ s = ChordAdd(b, a)
@@ -102,5 +113,9 @@ CaseChord == [op |-> "c19chord", a |-> A, b |-> B, add |-> ChordAdd(A, B), sub |
 Emit ==
     PrintT(<<"CASE", ToJson(
         CASE F = "cap" /\ Un -> CaseCapU [] F = "cap" /\ Bin -> CaseCapB
-          [] F = "chord" /\ Un -> [op |-> "c19nop"] [] F = "chord" /\ Bin -> CaseChord)>>)
+          [] F = "chord" /\ Un -> [op |-> "c19nop"] [] F = "chord" /\ Bin -> CaseChord
+          [] F = "ct" /\ Un -> [op |-> "c19nop"]
+          [] F = "ct" /\ Bin -> [op |-> "c19ct", a |-> A, supp |-> ChordSupp(A), nu |-> B[1], off |-> B[2],
+                                 seed |-> CtSeed, c |-> DirSeq[1 + ((A + B[2]) % Len(DirSeq))],
+                                 sum |-> ChordAdd(A, ChordSupp(A)).e])>>)
 =============================================================================
